@@ -36,6 +36,7 @@ type Env struct {
 	inQuant  bool
 	bound    map[string]Val
 	invoked  map[string]invokedFn
+	entryParams bool // inside old(): parameter names denote entry values even where a loop variable of the same name exists
 	visited  map[*ssa.Range]string // ghost state of range-over-map loops at this program point
 	qvals    []Val           // values of the enclosing quantifiers' bound variables (outermost first)
 	altBlock *ssa.BasicBlock // second program point tried for local names (the call site of before/after)
@@ -304,6 +305,24 @@ func (e *Env) eval(x *Expr) Val {
 	case "old":
 		e2 := *e
 		e2.heap = e.oldHeap
+		if e.own && len(e.override) > 0 {
+			// inside old(), a parameter the function reassigns denotes its value on entry, not the
+			// value it has in the current loop iteration
+			ov := map[string]Val{}
+			for k, v := range e.override {
+				isParam := false
+				for _, p := range e.tr.fn.Params {
+					if p.Name() == k {
+						isParam = true
+					}
+				}
+				if !isParam {
+					ov[k] = v
+				}
+			}
+			e2.override = ov
+			e2.entryParams = true
+		}
 		return e2.eval(x.A[0])
 	case "un":
 		return e.unary(x)
